@@ -76,6 +76,7 @@ def _gen_file(rng, formats, tier, max_frames=None):
         knobs['fixed_bits'] = rng.below(1 << 16)
     if fmt == 'trr' and rng.chance(0.45):
         knobs['dialect'] = rng.choice(['double', 'double_v', 'double_f', 'double_vf', 'single_vf', 'single_v'])
+        knobs['trr_tensors'] = rng.choice(['', '', 'vir', 'pres', 'virpres'])
     if fmt == 'xyz' and rng.chance(0.35):
         knobs['dialect'] = rng.choice(['empty_comment', 'blank_comment'])
     if fmt == 'gro' and rng.chance(0.35):
@@ -136,9 +137,13 @@ def _gen_handle_op(rng, n_handles, nsub):
         o['n'] = rng.weighted([(1, 4), (2, 3), (3, 2), (rng.randint(4, 12), 3), (rng.randint(13, 80), 1)])
         if rng.chance(0.3):
             o['ai'] = rng.below(nsub)
+        if rng.chance(0.2):
+            o['as_traj'] = True        # the same read through the handle's read_as_traj(): a Trajectory in nm instead of raw arrays
     elif op == 'readall':
         if rng.chance(0.3):
             o['ai'] = rng.below(nsub)
+        if rng.chance(0.2):
+            o['as_traj'] = True
     elif op in ('seek', 'rseek', 'eseek'):
         o['k'] = rng.below(1 << 16)
     return o
@@ -189,6 +194,11 @@ def generate(check, rng, tier, run_index):
             f['knobs']['layout'] = rng.choice(['std', 'mol_first', 'reordered', 'wrapped_names', 'scaled_too'])     # files of one format may differ in column layout
             f['knobs']['line_order'] = rng.choice(['sorted', 'shuffled'])
         _clamp_long(f)
+    for k in range(1, nfiles):
+        if files[k]['fmt'] not in RESTART and files[k - 1]['n_frames'] < 1000 and 'continues' not in files[k - 1]['knobs'] \
+                and files[k - 1]['knobs'].get('dialect') != 'fixed' and rng.chance(0.4):
+            # the parts of a restarted run: this file begins with the frame the previous file ends with
+            files[k]['knobs']['continues'] = True
     subsets = _gen_subsets(rng)
     handles = [{'file': rng.below(nfiles)} for _ in range(2)]
     ops = []
@@ -235,7 +245,8 @@ def generate(check, rng, tier, run_index):
                 o['ai'] = rng.below(2)
         elif k == 'load_list':
             kf = rng.randint(1, 3)
-            o = {'op': 'load_list', 'fs': [rng.below(nfiles) for _ in range(kf)],
+            o = {'op': 'load_list', 'fs': [rng.below(nfiles) for _ in range(kf)] if rng.chance(0.6) else list(range(min(kf, nfiles))),
+                 'discard': rng.chance(0.4),            # discard_overlapping_frames=True
                  'stride': rng.weighted([(None, 3), (2, 2), (3, 1)]), 'top': rng.choice(['obj', 'path', 'shared'])}
             if rng.chance(0.5):
                 o['ai'] = rng.below(2)
@@ -286,6 +297,12 @@ class World(object):
             origin = tuple(fs['knobs'].get('origin', (0.0, 0.0, 0.0)))
             path = os.path.join(workdir, 'f%d%s' % (k, fs['knobs'].get('ext', F['ext'])))
             t = fmts.make_traj(fs['n_frames'], fs['n_atoms'], fs['cell'], fs['seed'], origin)
+            cont = None
+            if fs['knobs'].get('continues') and k > 0 and case['files'][k - 1]['n_atoms'] == fs['n_atoms']:
+                prev = case['files'][k - 1]
+                off = prev['n_frames'] - 1
+                cont = (off, prev['seed'], tuple(prev['knobs'].get('origin', (0.0, 0.0, 0.0))))
+                t = fmts.make_traj(off + fs['n_frames'], fs['n_atoms'], fs['cell'], cont[1], cont[2])[off:]
             kw = {}
             if fs['fmt'] == 'h5':
                 # compression knob goes through the file object
@@ -311,6 +328,8 @@ class World(object):
             if fs['fmt'] == 'lammpstrj' and (fs['knobs'].get('layout', 'std') != 'std' or fs['knobs'].get('line_order') == 'shuffled'):
                 _relayout_lammpstrj(path, fs['knobs'].get('layout', 'std'), fs['knobs'].get('line_order') == 'shuffled', fs['seed'])
             x, tm, L, A = fmts.tagged_arrays(fs['n_frames'], fs['n_atoms'], fs['cell'], fs['seed'], origin)
+            if cont is not None:
+                x, tm, L, A = [None if v is None else v[cont[0]:] for v in fmts.tagged_arrays(cont[0] + fs['n_frames'], fs['n_atoms'], fs['cell'], cont[1], cont[2])]
             dia = fs['knobs'].get('dialect')
             if dia:
                 from .. import foreign
@@ -332,7 +351,9 @@ class World(object):
                     if 'be' in dia:
                         foreign.dcd_swap_endianness(path)
                 elif fs['fmt'] == 'trr':
-                    foreign.trr_rewrite(path, dia.startswith('double'), 'v' in dia.split('_')[-1] and '_' in dia, dia.endswith('f') and '_' in dia, fs['seed'])
+                    tens = fs['knobs'].get('trr_tensors', '')
+                    foreign.trr_rewrite(path, dia.startswith('double'), 'v' in dia.split('_')[-1] and '_' in dia, dia.endswith('f') and '_' in dia, fs['seed'],
+                                        with_vir='vir' in tens, with_pres='pres' in tens)
                 elif fs['fmt'] == 'xyz':
                     foreign.xyz_blank_comments(path, 'empty' if dia == 'empty_comment' else 'blank')
                 elif fs['fmt'] == 'gro':
@@ -546,8 +567,17 @@ def step_handle(res, check, world, hc, op, stepno, judge=True):
                     as_slice = True
                 else:
                     kw['atom_indices'] = ai
+            as_traj = bool(op.get('as_traj')) and f.get('traj') is not None and hasattr(hc.h, 'read_as_traj') \
+                and not (fmt == 'dtr' and n is not None)      # DTR read_as_traj drops n_frames: known finding recorded under C02
             try:
-                out = hc.h.read(n, **kw) if n is not None else hc.h.read(**kw)
+                if as_traj:
+                    kwt = dict(kw)
+                    if n is not None:
+                        kwt['n_frames'] = n
+                    tr = hc.h.read_as_traj(**kwt) if fmt == 'h5' else hc.h.read_as_traj(f['traj'].topology, **kwt)
+                    out = None
+                else:
+                    out = hc.h.read(n, **kw) if n is not None else hc.h.read(**kw)
             except NotImplementedError:
                 res.skip('%s.%s' % (fmt, kind))
                 res.log.append('%d c%d %s not-offered' % (stepno, op['c'], kind))
@@ -559,15 +589,21 @@ def step_handle(res, check, world, hc, op, stepno, judge=True):
                     res.log.append('%d c%d %s slice-ai not-offered' % (stepno, op['c'], kind))
                     hc.close()
                     return
-                if kind == 'read' and pre >= N:
+                if (kind == 'read' or as_traj) and pre >= N:
                     # read(n) at end of file: signalling EOF by raising is accepted; position must stay
+                    # (read_as_traj() with nothing left cannot build a Trajectory of zero frames in most readers and raises too)
                     res.probe('read_at_eof_raised')
-                    res.log.append('%d c%d read(%d)@EOF raised %s' % (stepno, op['c'], n, type(e).__name__))
+                    res.log.append('%d c%d read(%s)@EOF raised %s' % (stepno, op['c'], n, type(e).__name__))
                     hc.eof = True
                     res.trace.append((fmt, kind, pc, 'eof-raise', hc.lenwarm))
                     return
                 raise
-            parts = fmts.result_parts(fmt, out)
+            if as_traj:
+                res.probe('read_through_read_as_traj')
+                parts = {'xyz': tr.xyz, 'time': tr.time if fmts.FORMATS[fmt].get('has_time') else None,
+                         'lengths': tr.unitcell_lengths, 'angles': tr.unitcell_angles}
+            else:
+                parts = fmts.result_parts(fmt, out)
             bad = _check_frames(f, fmt, parts, ids, ai)
             hc.pos = newpos
             if newpos >= N:
@@ -582,7 +618,7 @@ def step_handle(res, check, world, hc, op, stepno, judge=True):
                 stepno, op['c'], kind, n, '' if ai is None else '[ai]', pre, len(ids), '' if bad is None else ' BAD:' + bad[0]))
             res.trace.append((fmt, kind, pc, 'over' if over else 'in', hc.lenwarm, ai is not None))
             if bad is not None:
-                viol(bad[0], bad[1], ',over' if over else '')
+                viol(bad[0], bad[1], (',over' if over else '') + (',as_traj' if as_traj else ''))
         elif kind in ('seek', 'rseek', 'eseek'):
             target = op['k'] % N
             try:
@@ -945,8 +981,10 @@ def step_loader(res, check, world, gens, op, stepno):
             kw['atom_indices'] = ai
         if op['stride'] is not None:
             kw['stride'] = op['stride']
+        if op.get('discard'):
+            kw['discard_overlapping_frames'] = True
         patched = op['top'] == 'shared' and 'subset' in getattr(f0['shared_top'], '__dict__', {})
-        flags = 'k=%d,%s%s' % (len(ks), 'ai' if ai is not None else 'all', ',top_patched' if patched else '')
+        flags = 'k=%d,%s%s%s' % (len(ks), 'ai' if ai is not None else 'all', ',top_patched' if patched else '', ',discard' if op.get('discard') else '')
         try:
             got = md.load([_pth(world.files[k]['path'], op) for k in ks], **kw)
         except NotImplementedError:
@@ -962,7 +1000,9 @@ def step_loader(res, check, world, gens, op, stepno):
         for k in ks:
             R, Rtop = _restrict(_full_load(world, k, op['top']), ai)
             pieces.append(R[::(op['stride'] or 1)])
-        exp = pieces[0] if len(pieces) == 1 else md.join(pieces, check_topology=False)
+        exp = pieces[0] if len(pieces) == 1 else md.join(pieces, check_topology=False, discard_overlapping_frames=bool(op.get('discard')))
+        if op.get('discard') and len(pieces) > 1 and exp.n_frames < sum(p_.n_frames for p_ in pieces):
+            res.probe('list_load_discarded_a_real_overlap')
         bad = _traj_eq(md, got, exp, pieces[0].topology, 'load_list')
         res.log.append('%d load_list %s -> %d frames%s' % (stepno, ks, got.n_frames, '' if bad is None else ' BAD:' + bad[0]))
         res.trace.append((fmt, 'load_list', flags))
